@@ -123,7 +123,7 @@ Print Assumptions C21_applied_at_the_instant.
    event's counter, and the planned event can not be pulled back behind that range; latency <= 499 *)
 Theorem C21_invariant_over_all_histories :
   forall c ops, Forall op_ok ops -> Inv c (lfinal c (linit c) ops).
-Proof. intros c ops H. exact (invariant_all_traces c ops (linit c) (Inv_init c) H). Qed.
+Proof. exact invariant_from_power_up. Qed.
 Print Assumptions C21_invariant_over_all_histories.
 
 (* end_event() with a waiting procedure [b]: the link ends, or the procedure still waits with a strictly smaller distance
@@ -194,7 +194,7 @@ Proof. exact session21_hypotheses. Qed.
 Example C21_waiting_state_exists :
   let s := lfinal cfg21 (linit cfg21) (pre21 ++ [Ev 0 [map_pdu 9]]) in
   deferred s = Some (snd (map_pdu 9)) /\ dist s = 6 /\ in_connection s = true.
-Proof. vm_compute. repeat split; reflexivity. Qed.
+Proof. exact waiting_state_example. Qed.
 (* the monitor is not trivially accepting: one rejected trace per clause (the behaviour of the unrepaired code among them) *)
 Example C21_monitor_rejects_accepted_passed_instant :
   verdict21 (observed_as (pre21 ++ [Ev 0 [upd_pdu 40 2]; Ev 0 []]) (pre21 ++ [Ev 0 [upd_pdu 40 7]; Ev 0 []])) = Bad 3.
